@@ -40,6 +40,10 @@ func checkC03(c *Ctx) {
 	ruleParseWidth(c, "C03.m")
 	c.rule("C03.n", "an index sentinel (-1 until a loop finds a position) is tested only by comparisons that separate -1 from every index", 1)
 	ruleSentinelTests(c, "C03.n", "imapserver", "imapserver/imapmemserver", "imapclient")
+	c.rule("C03.o", "a number set copied out of a command field is not mutated in the copy (a second FETCH for the same message is not taken for the command's own)", 1)
+	ruleLostUpdateOnCopy(c, "C03.o", "imapclient")
+	c.rule("C03.p", "the wire encoder never re-encodes a string rune by rune (bytes that are not valid UTF-8 survive)", 1)
+	ruleNoRuneReencoding(c, "C03.p")
 	ruleOptionDefaulting(c, "C03.h")
 }
 
